@@ -451,3 +451,19 @@ Proof.
   rewrite (fraglist_of_keys _ _ _ (set_atom_names_keys _ _ _ _ _ Es)) in Efl.
   exact (set_atom_names_closed_form_returned _ _ _ _ _ Es Hnd pre mn nodes post Efl).
 Qed.
+
+(** ---------------------------------------------------------------- the index never falls behind the position *)
+(** in a coarse node whose counter starts at idx the atom at position p, when it is new, gets an index >= idx + p; it gets
+    exactly idx + p when no atom before it in this coarse node stepped over a taken label and its own candidate label is free *)
+Lemma exact_index_ge used : forall ds shn idx vs shn', exact used shn idx ds vs shn' ->
+  forall p e sh, nth_error ds p = Some (New e sh) -> exists i, nth_error vs p = Some (VStr (atom_label e i)) /\ idx + Z.of_nat p <= i.
+Proof.
+  induction ds as [|d r IH]; intros shn idx vs shn' H p e sh Hp; [destruct p; discriminate Hp|].
+  destruct vs as [|w ws]; cbn [exact] in H; [destruct d; contradiction|].
+  destruct d as [v|e0 sh0].
+  - destruct H as [-> H]. destruct p as [|p]; [discriminate Hp|]. cbn [nth_error] in Hp |- *.
+    destruct (IH _ _ _ _ H p e sh Hp) as [i [Hi Hle]]. exists i. split; [exact Hi|lia].
+  - destruct H as (i0 & (L0 & _) & -> & H). destruct p as [|p]; cbn [nth_error] in Hp |- *.
+    + inversion Hp; subst. exists i0. split; [reflexivity|lia].
+    + destruct (IH _ _ _ _ H p e sh Hp) as [i [Hi Hle]]. exists i. split; [exact Hi|lia].
+Qed.
